@@ -8,6 +8,13 @@
 
 #include <asmjit/support/support.h>
 
+#if defined(ASMJIT_VERIF)
+// Verification hook (fault injection): a harness may define this predicate to make the next arena request fail.
+extern "C" int asmjit_verif_fail_alloc(size_t size) noexcept __attribute__((weak));
+#define ASMJIT_VERIF_ARENA_FAULT_POINT(SIZE) \
+  do { if (asmjit_verif_fail_alloc && asmjit_verif_fail_alloc(SIZE)) return nullptr; } while (0)
+#endif
+
 ASMJIT_BEGIN_NAMESPACE
 
 //! \addtogroup asmjit_support
@@ -316,6 +323,10 @@ public:
   [[nodiscard]]
   ASMJIT_INLINE T* alloc_oneshot(size_t size) noexcept {
     ASMJIT_ASSERT(Support::is_aligned(size, kAlignment));
+
+#if defined(ASMJIT_VERIF)
+    ASMJIT_VERIF_ARENA_FAULT_POINT(size);
+#endif
 
 #if defined(__GNUC__)
     // We can optimize this function a little bit if we know that `size` is relatively small - which would mean
